@@ -518,10 +518,13 @@ class CompositeFrontend(ConstrainedFrontend):
         if len(combined_noncommons):
             _, merged_noncommon = combined_noncommons[0].merge(combined_noncommons[1:], merge_conditions)
 
-            merged._owned_solvers.add(merged_noncommon)
-            merged._store_child(merged_noncommon)
+            # the merged constraint may mention variables of the common children (through the merge conditions):
+            # add it like any other constraint so that the children it depends on are merged with it
+            merged.add(merged_noncommon.constraints)
 
         merged.constraints = list(itertools.chain.from_iterable(a.constraints for a in merged._solver_list))
+        if merged._unsat:
+            merged.constraints.append(false())
         return True, merged
 
     def split(self):
